@@ -34,6 +34,9 @@ POINTS = {
     'putil': ('lib', 'src/lib/util/preprocessor_util.rs', 'crate::util::preprocessor_util::verif_putil'),
     'print': ('bin', 'src/driver/print.rs', 'crate::driver::print::verif_print'),
     'intr': ('bin', 'src/driver/interrupts.rs', 'crate::driver::interrupts::verif_intr'),
+    # copies made by make_driver_copies(): the real text of run() / user_interface() with the environment stubbed
+    'drv': ('bin', 'src/driver/verif_driver_copy.rs', 'crate::driver::verif_driver_copy::verif_drvh'),
+    'ui': ('bin', 'src/driver/verif_ui_copy.rs', 'crate::driver::verif_ui_copy::verif_uih'),
 }
 
 PRINT_SHADOW = '''
@@ -66,6 +69,71 @@ def insert_after_header(path, text):
     open(path, 'w').write('\n'.join(lines))
 
 PARSER_POINTS = {'interp', 'prep', 'data', 'print'}
+
+# names that the copies of driver.rs / user_interface.rs take from verif_drv (harness/drv.rs) instead of
+# the real regex engine, parsers, console and machine constructor
+DRV_STUBBED = ['Regex', 'preprocess', 'user_interface', 'PrintParser', 'DataParser', 'Interpreter', 'get_err_pos',
+               'int_13', 'int_21', 'VM']
+
+
+def rewrite_uses(src, stubbed):
+    """`use` lines of a driver source file: every imported name in `stubbed` is taken from
+    super::verif_drv instead; nothing else of the text changes.  returns (text, names redirected)"""
+    taken = []
+
+    def one(m):
+        body = m.group(1).strip()
+        mm = re.match(r'^(.*?)::\{(.*)\}$', body, re.S)
+        if mm:
+            prefix, names = mm.group(1), [n.strip() for n in mm.group(2).split(',') if n.strip()]
+            keep = [n for n in names if n.split(' as ')[-1].strip() not in stubbed]
+            taken.extend(n.split(' as ')[-1].strip() for n in names if n.split(' as ')[-1].strip() in stubbed)
+            if not keep:
+                return ''
+            return 'use %s::{%s};' % (prefix, ', '.join(keep))
+        last = body.rsplit('::', 1)[-1].split(' as ')[-1].strip()
+        if last in stubbed:
+            taken.append(last)
+            return ''
+        return m.group(0)
+
+    out = re.sub(r'(?m)^use ([^;]+);', one, src)
+    if taken:
+        out = 'use super::verif_drv::{%s};\n' % ', '.join(sorted(set(taken))) + out
+    return out, sorted(set(taken))
+
+
+def make_driver_copies(tree, info):
+    """src/driver/verif_driver_copy.rs, verif_ui_copy.rs: the text of driver.rs / user_interface.rs with the
+    environment redirected (imports; std::io / std::process calls)"""
+    drv = os.path.join(tree, 'src/driver')
+    with open(os.path.join(drv, 'verif_drv.rs'), 'w') as f:
+        f.write(open(os.path.join(HARNESS, 'drv.rs')).read())
+    append_once(os.path.join(drv, 'mod.rs'), '%s pub mod verif_drv;' % CFG)
+    rep = {}
+    # --- CMDDriver::run
+    src = open(os.path.join(drv, 'driver.rs')).read()
+    txt, taken = rewrite_uses(src, set(DRV_STUBBED))
+    rep['driver.rs'] = {'redirected_imports': taken, 'textual': {}}
+    with open(os.path.join(drv, 'verif_driver_copy.rs'), 'w') as f:
+        f.write(txt)
+    insert_after_header(os.path.join(drv, 'verif_driver_copy.rs'), PRINT_SHADOW)
+    append_once(os.path.join(drv, 'mod.rs'), '%s pub mod verif_driver_copy;' % CFG)
+    # --- user_interface
+    src = open(os.path.join(drv, 'user_interface.rs')).read()
+    txt, taken = rewrite_uses(src, {'PrintParser'})
+    textual = {}
+    for old, new in (('std::io::stdin().read_line(', 'crate::driver::verif_io::read_line('),
+                     ('std::io::stdout().flush()', 'crate::driver::verif_drv::flush_stub()'),
+                     ('std::process::exit(', 'return crate::driver::verif_drv::exit_stub(')):
+        textual[old] = txt.count(old)
+        txt = txt.replace(old, new)
+    rep['user_interface.rs'] = {'redirected_imports': taken, 'textual': textual}
+    with open(os.path.join(drv, 'verif_ui_copy.rs'), 'w') as f:
+        f.write(txt)
+    insert_after_header(os.path.join(drv, 'verif_ui_copy.rs'), PRINT_SHADOW)
+    append_once(os.path.join(drv, 'mod.rs'), '%s pub mod verif_ui_copy;' % CFG)
+    info['driver_copies'] = rep
 
 
 def strip_lifetimes(t):
@@ -596,7 +664,7 @@ def attach(tree, kf_active):
             raise SystemExit('INCONCLUSIVE: cannot locate std::collections import in %s' % rel)
         open(p, 'w').write(txt2)
 
-    files = [f for f in harness_files() if os.path.basename(f) not in ('rt.rs', 'map.rs')]
+    files = [f for f in harness_files() if os.path.basename(f) not in ('rt.rs', 'map.rs', 'io.rs', 'drv.rs')]
     by_point = {}
     for f in files:
         stem = os.path.basename(f)[:-3]
@@ -631,6 +699,7 @@ def attach(tree, kf_active):
     isrc = isrc.replace('std::io::stdin().read_line(', 'crate::driver::verif_io::read_line(')
     open(ip, 'w').write(isrc)
     info['stdin_calls_stubbed'] = n_stdin
+    make_driver_copies(tree, info)
     bp = os.path.join(tree, 'src/bin.rs')
     bsrc = open(bp).read()
     if 'verif_bin_gen' not in bsrc:
